@@ -22,7 +22,7 @@ use support::rng::{Fp, Rng};
 const ABSENT: u32 = 9;
 const FRESH: u32 = 77;
 
-pub const MAP_OPS: [&str; 45] = [
+pub const MAP_OPS: [&str; 55] = [
     "insert", "insert_key_value", "checked_insert", "remove(q)", "remove(k)", "remove_entry(q)", "get(q)", "get(k)",
     "get_mut(q)", "contains_key(k)", "get_key_value(q)", "index(q)", "index_mut(k)", "retain(some)", "retain(none)",
     "clear", "drain.take0.drop", "drain.take1.drop", "clone", "eq(equal)", "eq(different)", "entry.or_insert",
@@ -30,19 +30,22 @@ pub const MAP_OPS: [&str; 45] = [
     "entry.insert", "entry.remove|into_key", "entry.remove_entry|key", "from_iter", "into_iter.take1.drop",
     "into_keys.take0.drop", "into_values.take1.drop", "drop(map)", "get_disjoint_mut", "fmt.debug", "fmt.display",
     "fmt.iter-debug", "fmt.drain-debug", "retain(mutate)", "entry.get|get_mut|into_mut", "clone-from-clone.eq",
-    "drain.take-all", "from(array)", "insert_unchecked",
+    "drain.take-all", "from(array)", "insert_unchecked", "into_iter.for_each", "into_iter.last", "into_keys.fold",
+    "into_values.for_each", "drain.for_each", "iter_mut.for_each", "values_mut.fold", "into_iter.nth1.drop", "drain.nth1.drop",
+    "into_iter.skip1.collect",
 ];
 /// which map ops take a key argument (the others run once per state)
 fn map_op_keyed(op: usize) -> bool {
     matches!(op, 0..=12 | 21..=28 | 34 | 40 | 44)
 }
 
-pub const SET_OPS: [&str; 30] = [
+pub const SET_OPS: [&str; 33] = [
     "set.insert", "set.replace", "set.remove(q)", "set.take(k)", "set.get(q)", "set.contains(k)", "set.retain(some)",
     "set.clear", "set.drain.take1.drop", "set.clone", "set.eq", "set.extend", "set.from_iter", "set.union",
     "set.intersection", "set.difference", "set.symmetric_difference", "set.is_subset", "set.is_superset",
     "set.is_disjoint", "set.sub", "set.into_iter.take1.drop", "drop(set)", "set.fmt.debug", "set.fmt.display",
     "set.union.debug", "set.difference.fold", "set.retain(none)", "set.extend(overflow)", "set.intersection.debug",
+    "set.into_iter.for_each", "set.drain.for_each", "set.iter.fold",
 ];
 fn set_op_keyed(op: usize) -> bool {
     matches!(op, 0..=5)
@@ -574,6 +577,73 @@ fn run_map_op<F: Fam, const N: usize>(op: usize, kc: u32, layout: &[u32], env: &
                 });
             }
         }
+        45 => {
+            let m = env.m.take().unwrap();
+            m.into_iter().for_each(|p| {
+                fault::tick(Cb::Closure);
+                drop(p);
+            });
+        }
+        46 => {
+            let m = env.m.take().unwrap();
+            drop(m.into_iter().last());
+        }
+        47 => {
+            let m = env.m.take().unwrap();
+            let n = m.into_keys().fold(0u32, |a, k| {
+                fault::tick(Cb::Closure);
+                a.wrapping_add(k.class())
+            });
+            let _ = std::hint::black_box(n);
+        }
+        48 => {
+            let m = env.m.take().unwrap();
+            m.into_values().for_each(|x| {
+                fault::tick(Cb::Closure);
+                drop(x);
+            });
+        }
+        49 => {
+            let m = env.m.as_mut().unwrap();
+            m.drain().for_each(|p| {
+                fault::tick(Cb::Closure);
+                drop(p);
+            });
+        }
+        50 => {
+            let m = env.m.as_mut().unwrap();
+            m.iter_mut().for_each(|(k, x)| {
+                fault::tick(Cb::Closure);
+                k.chk("iter_mut key");
+                x.set_payload(11);
+            });
+        }
+        51 => {
+            let m = env.m.as_mut().unwrap();
+            let n = m.values_mut().fold(0u32, |a, x| {
+                fault::tick(Cb::Closure);
+                x.set_payload(12);
+                a + 1
+            });
+            let _ = std::hint::black_box(n);
+        }
+        52 => {
+            let m = env.m.take().unwrap();
+            let mut it = m.into_iter();
+            drop(it.nth(1));
+            drop(it);
+        }
+        53 => {
+            let m = env.m.as_mut().unwrap();
+            let mut d = m.drain();
+            drop(d.nth(1));
+            drop(d);
+        }
+        54 => {
+            let m = env.m.take().unwrap();
+            let v: Vec<(F::K, F::V)> = m.into_iter().skip(1).collect();
+            drop(v);
+        }
         35 => {
             let _ = format!("{:?}", env.m.as_ref().unwrap());
         }
@@ -745,6 +815,28 @@ fn run_set_op<F: Fam, const N: usize, const M: usize>(op: usize, kc: u32, layout
         29 => {
             let (s, t) = (env.s.as_ref().unwrap(), env.t.as_ref().unwrap());
             let _ = format!("{:?}{:?}{:?}", s.intersection(t), s.symmetric_difference(t), s.difference(t));
+        }
+        30 => {
+            let s = env.s.take().unwrap();
+            s.into_iter().for_each(|k| {
+                fault::tick(Cb::Closure);
+                drop(k);
+            });
+        }
+        31 => {
+            let s = env.s.as_mut().unwrap();
+            s.drain().for_each(|k| {
+                fault::tick(Cb::Closure);
+                drop(k);
+            });
+        }
+        32 => {
+            let s = env.s.as_ref().unwrap();
+            let n = s.iter().fold(0u32, |a, k| {
+                fault::tick(Cb::Closure);
+                a.wrapping_add(k.class())
+            });
+            let _ = std::hint::black_box(n);
         }
         _ => unreachable!(),
     }
